@@ -28,7 +28,9 @@ import (
 //	                                (its own cache size); cache=N>0: acl.ParseTextRules +
 //	                                acl.Compile(…, N, …) wrapped in the same aclEngine.
 //	                                obs: "-" or user outbound names joined by ","
-//	q <name> <v4> <v6> <proto> <port>   one aclEngine.handle call (= Match + default + hijack)
+//	q <name> <v4> <v6> <proto> <port> [<ri>]   one aclEngine.handle call (= HostInfo from the request's
+//	                                ResolveInfo + Match + default + hijack); ri: 0 no ResolveInfo,
+//	                                1 ResolveInfo{v4,v6}, 2 the same with Err set
 //
 // Every q is ALSO asked on a freshly compiled rule set (model-free oracle "the cache is
 // invisible") and answered by an independent reference evaluator written from the ACL
@@ -187,13 +189,22 @@ type engineOut struct {
 }
 
 // one aclEngine.handle call and what it did to the request address
-func callHandle(engine outbounds.PluggableOutbound, name string, v4, v6 net.IP, proto acl.Protocol, port uint16) engineOut {
+// errPartial stands for what the resolvers leave in ResolveInfo.Err when one of the A/AAAA
+// lookups failed while the other produced an address (or when both failed).
+var errPartial = errors.New("verif: AAAA lookup timed out")
+
+// riShape: "0" = no ResolveInfo, "1" = ResolveInfo{IPv4, IPv6}, "2" = the same with Err set
+// (extras/outbounds/interface.go: a resolution can carry an error AND addresses).
+func callHandle(engine outbounds.PluggableOutbound, name string, v4, v6 net.IP, shape string, proto acl.Protocol, port uint16) engineOut {
 	addr := &outbounds.AddrEx{Host: name, Port: port}
 	var ri *outbounds.ResolveInfo
-	if v4 != nil || v6 != nil {
+	switch shape {
+	case "1":
 		ri = &outbounds.ResolveInfo{IPv4: v4, IPv6: v6}
-		addr.ResolveInfo = ri
+	case "2":
+		ri = &outbounds.ResolveInfo{IPv4: v4, IPv6: v6, Err: errPartial}
 	}
+	addr.ResolveInfo = ri
 	final := outbounds.VerifACLHandle(engine, addr, proto)
 	out := engineOut{final: obID(final), rw: "0"}
 	changed := addr.Host != name || addr.ResolveInfo != ri || addr.Port != port
@@ -217,7 +228,7 @@ func callHandle(engine outbounds.PluggableOutbound, name string, v4, v6 net.IP, 
 
 func (c *aclComp) runQuery(f []string) vh.Result {
 	if !c.loaded {
-		return vh.Result{Out: "no-rules", ModelOp: strings.Join(f, " ") + " - ."}
+		return vh.Result{Out: "no-rules", ModelOp: strings.Join(f[:6], " ") + " - . 0"}
 	}
 	name := string(vh.UnHex(f[1]))
 	v4, v6 := unhexIP(f[2]), unhexIP(f[3])
@@ -225,6 +236,18 @@ func (c *aclComp) runQuery(f []string) vh.Result {
 	proto := acl.Protocol(pn)
 	p64, _ := strconv.ParseUint(f[5], 10, 16)
 	port := uint16(p64)
+	// shape of the request's ResolveInfo (optional 7th field; default: present iff an address is)
+	shape := "1"
+	if v4 == nil && v6 == nil {
+		shape = "0"
+	}
+	if len(f) > 6 {
+		shape = f[6]
+	}
+	if shape == "0" { // no ResolveInfo: the resolution produced no address
+		v4, v6 = nil, nil
+		f[2], f[3] = "-", "-"
+	}
 
 	// idna.ToUnicode of the normalised name is an INPUT of the model
 	norm := strings.TrimRight(strings.ToLower(name), ".")
@@ -243,7 +266,7 @@ func (c *aclComp) runQuery(f []string) vh.Result {
 
 	var orc []string
 	// c.known = the cache population after the previous lookup
-	eo := callHandle(c.engine, name, v4, v6, proto, port)
+	eo := callHandle(c.engine, name, v4, v6, shape, proto, port)
 	after := acl.VerifCacheKeys(c.rs)
 	if eo.bad != "" {
 		orc = append(orc, eo.bad)
@@ -312,7 +335,8 @@ func (c *aclComp) runQuery(f []string) vh.Result {
 		wantFinal = obID(c.obMap["default"])
 	}
 	if eo.final != wantFinal {
-		orc = append(orc, fmt.Sprintf("handle served %s but Match decided %s", eo.final, wantFinal))
+		// first in the list: the other engine-level symptoms (extra cache entry, …) follow from it
+		orc = append([]string{}, append([]string{fmt.Sprintf("engine: handle (ResolveInfo shape %s) served %s, but the rules asked with every address the resolution produced (%s, %s) decide %s", shape, eo.final, ipHex(v4), ipHex(v6), wantFinal)}, orc...)...)
 	}
 	if (hij != nil) != (eo.rw != "0") && ob != nil {
 		orc = append(orc, "hijack address and request rewriting disagree")
@@ -339,7 +363,7 @@ func (c *aclComp) runQuery(f []string) vh.Result {
 			orc = append(orc, fmt.Sprintf("cache visible: this history answers (%s,%s), a fresh rule set answers (%s,%s)", obID(ob), ipHex(hij), obID(fob), ipHex(fhij)))
 		}
 		// … and through the engine (the fresh set now holds exactly this one decision)
-		fe := callHandle(outbounds.VerifNewACLEngine(fresh, c.obMap["default"]), name, v4, v6, proto, port)
+		fe := callHandle(outbounds.VerifNewACLEngine(fresh, c.obMap["default"]), name, v4, v6, shape, proto, port)
 		if fe.final != eo.final || fe.rw != eo.rw {
 			orc = append(orc, fmt.Sprintf("cache visible at the engine: this history serves (%s,%s), a fresh engine (%s,%s)", eo.final, eo.rw, fe.final, fe.rw))
 		}
@@ -366,7 +390,7 @@ func (c *aclComp) runQuery(f []string) vh.Result {
 		}
 	}
 
-	mop := fmt.Sprintf("q %s %s %s %s %s %s %s", f[1], f[2], f[3], f[4], f[5], us, ev)
+	mop := fmt.Sprintf("q %s %s %s %s %s %s %s %s", f[1], f[2], f[3], f[4], f[5], us, ev, shape)
 	return vh.Result{Out: out, ModelOp: mop, NonTrivial: ob != nil, Oracle: orc}
 }
 
@@ -920,7 +944,15 @@ func (g *aclGen) query() string {
 	if port > 65535 {
 		port = 65535
 	}
-	return fmt.Sprintf("q %s %s %s %d %d", vh.Hex([]byte(name)), vh.Hex(v4), vh.Hex(v6), proto, port)
+	// ResolveInfo in every shape: absent; present (v4 only / v6 only / both / neither); and each
+	// of the present ones with Err set (A ok + AAAA failed, the reverse, total failure)
+	shape := "1"
+	if v4 == nil && v6 == nil {
+		shape = g.pick([]string{"0", "0", "1", "2"})
+	} else if r.Chance(2, 5) {
+		shape = "2"
+	}
+	return fmt.Sprintf("q %s %s %s %d %d %s", vh.Hex([]byte(name)), vh.Hex(v4), vh.Hex(v6), proto, port, shape)
 }
 
 func (c *aclComp) Gen(r *vh.RNG, n int, emit func(op string, tags ...string)) {
@@ -961,7 +993,7 @@ func (c *aclComp) Gen(r *vh.RNG, n int, emit func(op string, tags ...string)) {
 				}
 			}
 			for _, q := range pool {
-				emit(q, "q-big-first")
+				emit(q, "q-big-first", "ri="+q[len(q)-1:])
 				emitted++
 			}
 			for i := 0; i < nq+200; i++ {
@@ -971,7 +1003,7 @@ func (c *aclComp) Gen(r *vh.RNG, n int, emit func(op string, tags ...string)) {
 				} else {
 					q = pool[r.Intn(len(pool))]
 				}
-				emit(q, "q-big-again")
+				emit(q, "q-big-again", "ri="+q[len(q)-1:])
 				emitted++
 			}
 			continue
@@ -994,7 +1026,7 @@ func (c *aclComp) Gen(r *vh.RNG, n int, emit func(op string, tags ...string)) {
 			if len(recent) > 6 {
 				recent = recent[1:]
 			}
-			emit(q, "q")
+			emit(q, "q", "ri="+q[len(q)-1:])
 			emitted++
 		}
 	}
